@@ -208,6 +208,19 @@ def run_case(case: Dict[str, Any], faults: List[Dict[str, Any]]) -> Dict[str, An
                 if m is not None and not isinstance(o, simsystem.model.Module):
                     bym.setdefault(m, []).append(o)
             page_cache: Dict[str, bytes] = {}
+            # the inventory and the all-documents page must list the healthy objects too
+            try:
+                from sim import net as _net
+                with open(os.path.join(out, 'objects.inv'), 'rb') as fh:
+                    inv_lines = _net.harness_decode(fh.read()) or []
+                inv_names = {(_net.ref_parse_line(l) or ('',))[0] for l in inv_lines}
+            except OSError:
+                inv_names = set()
+            try:
+                with open(os.path.join(out, 'all-documents.html'), 'rb') as fh:
+                    alldocs = fh.read()
+            except OSError:
+                alldocs = b''
             broken_mods = {n for n, m in world['modules'].items() if W.modpath(n, m['pkg']) in changed}
             for e in system.sim_log:
                 if e[0] == 'enter' and e[2] > 0 and e[1] in broken_mods:
@@ -245,6 +258,10 @@ def run_case(case: Dict[str, Any], faults: List[Dict[str, Any]]) -> Dict[str, An
                         except OSError:
                             page_cache[page] = b''
                             viols.append((f'page-missing,fault={kinds}', f'page {page} of M{i_s} was not written'))
+                    if o.fullName() not in inv_names:
+                        viols.append((f'definition-not-in-inventory,kind={d["kind"]},fault={kinds}', f'M{i_s} ({o.fullName()}) of undamaged module {name} is missing from objects.inv'))
+                    if alldocs and f'id="{o.fullName()}"'.encode() not in alldocs:
+                        viols.append((f'definition-not-in-search-documents,kind={d["kind"]},fault={kinds}', f'M{i_s} ({o.fullName()}) of undamaged module {name} is missing from all-documents.html'))
                     if page_cache[page] and f'M{i_s}M'.encode() not in page_cache[page]:
                         viols.append((f'definition-not-on-its-page,kind={d["kind"]},fault={kinds}', f'M{i_s} ({o.fullName()}) does not appear on {page}'))
         return {'viols': viols, 'info': info}
